@@ -167,8 +167,8 @@ def strategy_factories():
         "CognitiveDualQueryStrategy(full)": (mk(st.CognitiveDualQueryStrategy, cognition_window_size=4,
                                                 force_full_budget=True), True),
         # parameter sweep: documented non-default values of the parameters the entries above leave alone
-        # (metric is left alone: with a metric the strategy fits its own model and query needs X and y as well)
         "StreamProbabilisticAL(prior=0.5,m_max=2)": (mk(st.StreamProbabilisticAL, prior=0.5, m_max=2), True),
+        "StreamProbabilisticAL(rbf)": (mk(st.StreamProbabilisticAL, metric="rbf"), True),
         "StreamDensityBasedAL(manhattan)": (mk(st.StreamDensityBasedAL, window_size=6,
                                                dist_func_dict={"metric": "manhattan"}), True),
         "CognitiveDualQueryStrategy(density_threshold=2,manhattan)": (
@@ -205,6 +205,12 @@ def _call_query(obj, is_manager, cand, utils, clf, name):
         return res, utils
     if name in BASELINES:
         return obj.query(cand.copy(), return_utilities=True)
+    if "(rbf)" in name:
+        # with a metric the strategy fits its own kernel model on (X, y) given to query: training data of a fixed
+        # size whose last row is the first candidate of the call (same size, different content from call to call)
+        Xtr = np.vstack([np.asarray(clf.X_, dtype=float), np.asarray(cand, dtype=float)[:1]])
+        ytr = np.array([float(i % 2) for i in range(len(Xtr) - 1)] + [np.nan])
+        return obj.query(cand.copy(), clf=clf, X=Xtr, y=ytr, return_utilities=True)
     return obj.query(cand.copy(), clf=clf, return_utilities=True)
 
 
@@ -334,7 +340,7 @@ def finding_key(tr, rej):
     ev = oe.get("ev", "end")
     name = tr["id"].split("/")[0]
     # (the parameter-sweep configurations share the findings of their strategy)
-    name = re.sub(r"\((?=[^)]*(manhattan|prior=|theta=))[^)]*\)", "", name)
+    name = re.sub(r"\((?=[^)]*(manhattan|prior=|theta=|rbf))[^)]*\)", "", name)
     why = ",".join(rej["failed_clauses"]) or str(oe.get("exc", "unmatched")).split(":")[0]
     key = "%s|%s|%s" % (name, ev, why)
     if why == "no-overspend-at-every-prefix":
